@@ -240,6 +240,8 @@ def rand_rx(r, ver = None, nope = None, mod = None):
 	     "nope": False}
 	if ver == 0:
 		m["soft"] = rand_soft(r, r.choice((148, 148, 444)))
+		# (not carried by the header: version 0 knows normal GMSK and 8-PSK bursts only)
+		m["mod"] = "GMSK" if len(m["soft"]) == 148 else "8PSK"
 		return m
 	m["ci"] = rand_edge(r, -1280, 1280, (0, -1, 1))
 	if nope is None:
